@@ -141,6 +141,7 @@ fn run_map(input: &Value) -> Case {
         let mut coq_obs: Vec<String> = vec![];
         let mut jobs: Vec<Value> = vec![];
         let mut tags: Vec<String> = vec![];
+        let mut known_class = false;
         for op in ops2.iter() {
             let kind = op["op"].as_str().unwrap_or("");
             let m = (op["m"].as_u64().unwrap_or(0) % 2) as usize;
@@ -202,6 +203,35 @@ fn run_map(input: &Value) -> Case {
                 "handle" => {
                     let k = key_of(&op["k"]);
                     let World { maps, states, handlers } = &mut w;
+                    // where this call falls with respect to the clauses of the property
+                    {
+                        let res_name = |r: KeyMapResult<&u64>| match r {
+                            KeyMapResult::Success(_) => "success",
+                            KeyMapResult::Continue => "continue",
+                            KeyMapResult::Failure => "failure",
+                        };
+                        let mut extended = states[m].clone();
+                        extended.push(k);
+                        let first = res_name(maps[m].lookup(&extended));
+                        tags.push(format!("handle.first_pass={}", first));
+                        if first == "failure" {
+                            tags.push(format!("handle.second_pass={}", res_name(maps[m].lookup(&[k]))));
+                        }
+                        let mut begins = false;
+                        let mut inside = false;
+                        maps[m].for_each(|c, _| {
+                            begins |= c.first() == Some(&k);
+                            inside |= c.iter().skip(1).any(|x| *x == k);
+                        });
+                        if !begins {
+                            tags.push(format!("handle.unbound_key.{}", if inside { "inside_a_chord" } else { "in_no_chord" }));
+                            if first == "continue" {
+                                // the unbound key continues the pending chord: the class of the known finding
+                                tags.push("handle.unbound_key.continues_pending".to_string());
+                                known_class = true;
+                            }
+                        }
+                    }
                     let fired = maps[m].lookup_state(&mut states[m], k).copied();
                     let hfired = handlers[m].handle(k).copied();
                     coq_ops.push(format!("OHandle {} {}", m, coq_key(&k)));
@@ -220,12 +250,15 @@ fn run_map(input: &Value) -> Case {
                 }
             }
         }
-        (coq_ops, coq_obs, jobs, tags)
+        (coq_ops, coq_obs, jobs, tags, known_class)
     });
     let mut j = input.clone();
     match result {
-        Some((coq_ops, coq_obs, jobs, mut tags)) => {
+        Some((coq_ops, coq_obs, jobs, mut tags, known_class)) => {
             j["impl"] = Value::Array(jobs);
+            if known_class {
+                j["known_class"] = json!(["unbound-key-continues-pending-chord"]);
+            }
             let nontrivial = tags.iter().filter(|t| t.starts_with("reg.")).count() >= 2
                 && tags.iter().any(|t| t.starts_with("lookup") || t.starts_with("handle") || t == "each");
             tags.sort();
@@ -372,13 +405,24 @@ fn run_print(input: &Value) -> Case {
         _ => PVal::Chord(keys.clone()),
     };
     let p = print_pval(&v);
+    let mut pairs = vec![];
+    oracle_pairs(&p, &mut pairs);
+    let reparsed = parse_as(&what, &p);
+    let (rc, rj) = coq_pout(&reparsed);
+    let tbl = clist(pairs.iter().map(|(a, b)| format!("({}, {})", coq_str(a), coq_str(b))));
     let mut j = input.clone();
-    j["impl"] = json!(p);
+    j["impl"] = json!({"printed": p, "reparsed": rj});
+    let roundtrip = match (&reparsed, &v) {
+        (Some(Ok(PVal::Name(a))), PVal::Name(b)) => a == b,
+        (Some(Ok(PVal::Key(a))), PVal::Key(b)) => a == b,
+        (Some(Ok(PVal::Chord(a))), PVal::Chord(b)) => a == b,
+        _ => false,
+    };
     Case {
-        coq: format!("CPrint {} {}", coq_pval(&v), coq_str(&p)),
+        coq: format!("CPrint {} {} {} {}", coq_pval(&v), coq_str(&p), tbl, rc),
         json: j,
-        tags: vec!["kind=print".to_string()],
-        nontrivial: false,
+        tags: vec!["kind=print".to_string(), format!("print.reparse_same={}", roundtrip)],
+        nontrivial: roundtrip,
     }
 }
 
@@ -404,6 +448,29 @@ fn alphabet() -> Vec<Value> {
         json!(["Up", "", 0]),
         json!(["Backspace", "", 2]),
     ]
+}
+
+/// a key drawn from all 22 KeyName variants (payloads and modes near each other), so that the derived
+/// Ord of Key (variant index, payload, mode) is exercised on every variant through BTreeMap order
+fn any_alphabet_key(rng: &mut Rng) -> Value {
+    let mode = *rng.pick(&[0u64, 0, 0, 1, 2, 4, 6, 256, 511]);
+    match rng.below(6) {
+        0 => json!(["Char", rng.pick(&[32u32, 97, 98, 122, 48, 0xe9, 0x1f600]).to_string(), mode]),
+        1 => json!(["F", rng.pick(&[0u64, 1, 2, 10, 35, u64::MAX]).to_string(), mode]),
+        _ => json!([rng.pick(&SIMPLE_NAMES).0, "", mode]),
+    }
+}
+
+/// seven distinct keys
+fn random_alphabet(rng: &mut Rng) -> Vec<Value> {
+    let mut v: Vec<Value> = vec![];
+    while v.len() < 7 {
+        let k = any_alphabet_key(rng);
+        if !v.contains(&k) {
+            v.push(k);
+        }
+    }
+    v
 }
 
 fn gen_chord(rng: &mut Rng, alpha: &[Value], pool: &[Vec<Value>]) -> Vec<Value> {
@@ -449,12 +516,22 @@ fn gen_chord(rng: &mut Rng, alpha: &[Value], pool: &[Vec<Value>]) -> Vec<Value> 
 }
 
 fn gen_map(rng: &mut Rng) -> Value {
-    let mut alpha = alphabet();
+    let mut alpha = if rng.chance(1, 2) { alphabet() } else { random_alphabet(rng) };
+    // a key that occurs inside chords but never first: it begins no bound chord
+    let inner = alpha.pop().unwrap_or(json!(["Char", "121", 0]));
     // sometimes a smaller alphabet: more collisions
     if rng.chance(1, 3) {
         alpha.truncate(3);
     }
-    let unbound = json!(["Char", "122", 0]); // never registered: begins no bound chord
+    let unbound = json!(["Char", "122", 1]); // never registered at all: begins no bound chord
+    let with_inner = |rng: &mut Rng, mut c: Vec<Value>| -> Vec<Value> {
+        for i in 1..c.len() {
+            if rng.chance(1, 5) {
+                c[i] = inner.clone();
+            }
+        }
+        c
+    };
     let mut pool: Vec<Vec<Value>> = vec![];
     let mut ops: Vec<Value> = vec![];
     let mut counter = 0u64;
@@ -463,7 +540,7 @@ fn gen_map(rng: &mut Rng) -> Value {
         let m = if rng.chance(3, 4) { 0 } else { 1 };
         match rng.below(100) {
             0..=37 => {
-                let c = if rng.chance(1, 40) { vec![] } else { gen_chord(rng, &alpha, &pool) };
+                let c = if rng.chance(1, 40) { vec![] } else { let c = gen_chord(rng, &alpha, &pool); with_inner(rng, c) };
                 counter += 1;
                 if !c.is_empty() {
                     pool.push(c.clone());
@@ -482,17 +559,34 @@ fn gen_map(rng: &mut Rng) -> Value {
             }
             72..=84 => {
                 // type a whole chord from the pool, sometimes after an unbound key or a stray key
-                if rng.chance(1, 3) {
-                    let k = if rng.chance(2, 3) { unbound.clone() } else { rng.pick(&alpha).clone() };
-                    ops.push(json!({"op": "handle", "m": m, "k": k}));
+                match rng.below(8) {
+                    0 | 1 => ops.push(json!({"op": "handle", "m": m, "k": unbound.clone()})),
+                    2 => ops.push(json!({"op": "handle", "m": m, "k": inner.clone()})),
+                    3 => {
+                        // part of a chord that has the inner key, up to and including it, then another chord:
+                        // the unbound key arrives while a chord is pending
+                        if let Some(c) = pool.iter().find(|c| c.contains(&inner)) {
+                            let upto = c.iter().position(|k| *k == inner).unwrap_or(0);
+                            for k in c[..=upto].iter() {
+                                ops.push(json!({"op": "handle", "m": m, "k": k}));
+                            }
+                        }
+                    }
+                    4 => ops.push(json!({"op": "handle", "m": m, "k": rng.pick(&alpha).clone()})),
+                    _ => {}
                 }
                 let c = gen_chord(rng, &alpha, &pool);
+                let c = with_inner(rng, c);
                 for k in c {
                     ops.push(json!({"op": "handle", "m": m, "k": k}));
                 }
             }
             85..=96 => {
-                let k = if rng.chance(1, 5) { unbound.clone() } else { rng.pick(&alpha).clone() };
+                let k = match rng.below(6) {
+                    0 => unbound.clone(),
+                    1 => inner.clone(),
+                    _ => rng.pick(&alpha).clone(),
+                };
                 ops.push(json!({"op": "handle", "m": m, "k": k}));
             }
             _ => ops.push(json!({"op": "clear", "m": m})),
@@ -525,6 +619,34 @@ fn random_case(rng: &mut Rng, s: &str) -> String {
     }
 }
 
+/// a character from blocks where to_lowercase does something (or nothing), or any scalar value
+fn random_unicode(rng: &mut Rng) -> char {
+    let (lo, hi) = *rng.pick(&[
+        (0xC0u32, 0xFFu32),   // Latin-1 letters
+        (0x100, 0x17F),       // Latin Extended-A (incl. U+0130, U+017F)
+        (0x1C4, 0x1CC),       // titlecase digraphs
+        (0x370, 0x3FF),       // Greek (final sigma context)
+        (0x400, 0x4FF),       // Cyrillic
+        (0x531, 0x587),       // Armenian
+        (0x10A0, 0x10FF),     // Georgian
+        (0x13A0, 0x13FF),     // Cherokee
+        (0x1E00, 0x1EFF),     // Latin Extended Additional (U+1E9E)
+        (0x2100, 0x214F),     // Letterlike (Kelvin, Angstrom, Ohm)
+        (0x2160, 0x2188),     // Roman numerals
+        (0x24B6, 0x24E9),     // circled letters
+        (0xFB00, 0xFB06),     // ligatures ff fi fl
+        (0xFF21, 0xFF5A),     // fullwidth letters
+        (0x10400, 0x1044F),   // Deseret
+        (0x0, 0x10FFFF),
+    ]);
+    for _ in 0..8 {
+        if let Some(c) = char::from_u32(lo + rng.below((hi - lo + 1) as u64) as u32) {
+            return c;
+        }
+    }
+    'x'
+}
+
 fn gen_fkey(rng: &mut Rng) -> String {
     let body = match rng.below(10) {
         0 => "18446744073709551615".to_string(),
@@ -534,7 +656,7 @@ fn gen_fkey(rng: &mut Rng) -> String {
         4 => (0..(18 + rng.below(5))).map(|_| char::from(b'0' + rng.below(10) as u8)).collect(),
         5 => String::new(),
         6 => format!("{}x", rng.below(100)),
-        7 => format!("\u{e9}{}", rng.below(10)),
+        7 => format!("{}{}", random_unicode(rng), rng.below(10)),
         _ => rng.below(40).to_string(),
     };
     let f = match rng.below(8) {
@@ -542,6 +664,9 @@ fn gen_fkey(rng: &mut Rng) -> String {
         1 => "\u{ff26}",
         _ => "f",
     };
+    if rng.chance(1, 12) {
+        return format!("{}{}", random_unicode(rng), body);
+    }
     format!("{}{}", f, body)
 }
 
@@ -556,7 +681,7 @@ fn gen_name_str(rng: &mut Rng) -> String {
             let cs: Vec<char> = PLAIN.chars().collect();
             rng.pick(&cs).to_string()
         }
-        7 => rng.pick(&ODD).to_string(),
+        7 => if rng.chance(1, 2) { rng.pick(&ODD).to_string() } else { random_unicode(rng).to_string() },
         8 => {
             // near miss of a literal
             let mut s: Vec<char> = rng.pick(&NAME_LITS).chars().collect();
@@ -645,7 +770,7 @@ fn gen_garbage(rng: &mut Rng) -> String {
         .map(|_| match rng.below(6) {
             0 => "+".to_string(),
             1 => " ".to_string(),
-            2 => rng.pick(&ODD).to_string(),
+            2 => if rng.chance(1, 2) { rng.pick(&ODD).to_string() } else { random_unicode(rng).to_string() },
             3 => char::from(b'0' + rng.below(10) as u8).to_string(),
             4 => "f".to_string(),
             _ => char::from(b'a' + rng.below(26) as u8).to_string(),
